@@ -117,7 +117,8 @@ def build_files(P, R):
             r = rel(D["name"], T["name"])
             xt = R.choice(XT_KINDS)
             explicit = XT[xt]
-            sp = R.sample(["md", "dotslash", "abs", "abs_noext", "abs_noext_text", "noext", "noext_text", "dot_noext", "project_auto", "project_text", "slug", "slug_empty", "label", "label_empty", "label_p", "empty"], 8)
+            sp = R.sample(["md", "dotslash", "abs", "abs_noext", "abs_noext_text", "noext", "noext_text", "dot_noext", "project_auto", "project_text", "slug", "slug_empty", "label", "label_empty", "label_p", "empty",
+                           "project_slug", "project_slug_auto", "abs_slug", "project_label"], 9)
             for s in sp:
                 if s == "md":
                     add(f"[{explicit}]({r}.md)", {"kind": "doc", "to": T["name"], "explicit": True})
@@ -149,6 +150,17 @@ def build_files(P, R):
                         add(f"[{explicit}]({r}.md#{sl})", {"kind": "slug", "to": T["name"], "head": hi, "explicit": True})
                     else:
                         add(f"[]({r}.md#{sl})", {"kind": "slug", "to": T["name"], "head": hi, "explicit": False, "text": T["heads"][hi].replace("`", "")})
+                elif s in ("project_slug", "project_slug_auto", "abs_slug"):
+                    hi = R.randrange(len(T["heads"]))
+                    sl = uniq([slug0(T["title"])] + [slug0(h) for h in T["heads"]])[hi + 1]
+                    if s == "project_slug":
+                        add(f"[{explicit}](project:{r}.md#{sl})", {"kind": "slug", "to": T["name"], "head": hi, "explicit": True})
+                    elif s == "project_slug_auto":
+                        add(f"<project:{r}.md#{sl}>", {"kind": "slug", "to": T["name"], "head": hi, "explicit": False, "text": T["heads"][hi].replace("`", "")})
+                    else:
+                        add(f"[](/{T['name']}.md#{sl})", {"kind": "slug", "to": T["name"], "head": hi, "explicit": False, "text": T["heads"][hi].replace("`", "")})
+                elif s == "project_label":
+                    add(f"<project:#{T['label_h']}>", {"kind": "label", "to": T["name"], "label": T["label_h"], "head": T["label_on"], "explicit": False, "text": T["heads"][T["label_on"]].replace("`", "")})
                 elif s == "label":
                     add(f"[{explicit}](#{T['label_h']})", {"kind": "label", "to": T["name"], "label": T["label_h"], "head": T["label_on"], "explicit": True})
                 elif s == "label_empty":
